@@ -31,6 +31,16 @@ def run(eng, rep, tier):
         label = prog.classes[recv_q].name
         rem = [(ev, ch) for ev, ch in calls(summ, "remove_final_state", own=True) if FINAL() in ev.ctrl]
         add = [(ev, ch) for ev, ch in calls(summ, "add_final_state", own=True) if FINAL() in ev.ctrl]
+        res_c = result_locs(summ)
+        if add and not rem and all(ev.recv is not None and ev.recv.alias and ev.recv.alias <= res_c for ev, _ in add) and \
+                any(DELTA_SYM() in arg_deps(ev, 0) or START() in arg_deps(ev, 0) for ev, _ in add):
+            # no flip at all: the complement is built directly (a subset construction whose states are final when they
+            # hold no final state of the operand) - finality of the fresh result is decided under a test on FINAL
+            ob.decide("R3a", "C03.1", fi, "final-flip-present:" + label, True,
+                      "the complement is constructed directly: states of a fresh automaton, built from sets of the operand's "
+                      "states, are made final under a test on FINAL (no flip on a copy)", "", summ,
+                      site=site_of(prog, fi, fi.node))
+            continue
         if not rem or not add:
             ob.decide("R3a", "C03.1", fi, "final-flip-present:" + label, False, "",
                       "get_complement no longer flips finality under a test on FINAL (no remove/add pair)", summ,
